@@ -110,7 +110,7 @@ def make_mapping(U, env):
 def needed_domain_problem(obj, ctx, complex_mode):
     """Does the value of obj depend on a subexpression outside its (real: real-valued; any: finite) domain?  Lazy walk:
     of a Conditional only the condition and the SELECTED branch are needed."""
-    from ufl.classes import Conditional, MultiIndex
+    from ufl.classes import Conditional, Label, MultiIndex
     from mc.sem.jet import is_real
 
     seen = {}
@@ -120,7 +120,7 @@ def needed_domain_problem(obj, ctx, complex_mode):
         return all(isinstance(x, bool) or is_real(const_of(x), mpf("1e-25")) for x in arr)
 
     def walk(n):
-        if id(n) in seen or isinstance(n, MultiIndex):
+        if id(n) in seen or isinstance(n, (MultiIndex, Label)):
             return seen.get(id(n), False)
         seen[id(n)] = False
         if n.ufl_free_indices:
@@ -140,7 +140,12 @@ def needed_domain_problem(obj, ctx, complex_mode):
         if not bad and not n.ufl_free_indices and hasattr(n, "ufl_shape"):
             try:
                 v = M.sem(n, ctx, {})
-                if not complex_mode and not real_valued(v):
+                # real operands but a non-real result: the node left the real domain of its function (UFL evaluates
+                # real arguments with the real math library in either mode)
+                ops_real = all(
+                    real_valued(M.sem(k, ctx, {})) for k in kids if not isinstance(k, (MultiIndex, Label)) and not k.ufl_free_indices
+                )
+                if ops_real and not real_valued(v):
                     bad = True
             except Exception:  # noqa: BLE001
                 bad = True
@@ -194,6 +199,10 @@ def eval_check(recipe, obj, lts, ctxs, envs, part, U):
                     # a derivative of the coefficient mapped to a one-argument callable f(x) was requested:
                     # the mapping cannot supply it (user error, not an evaluator defect)
                     part.count("mapping_without_derivatives")
+                    break
+                if isinstance(e, TypeError) and "not supported between instances of 'complex'" in str(e):
+                    # an ordering of complex numbers has no mathematical value (the model's tie rule is a convenience)
+                    part.count("complex_ordering")
                     break
                 if isinstance(e, TypeError) and "must be real number" in str(e):
                     # python's math module has no complex version of this function (erf)
